@@ -37,7 +37,7 @@ import (
 )
 
 func init() {
-	register(&Prop{ID: "C19", Module: "V.C19.Check", Gen: c19Gen, Quick: 200, Thorough: 1500, Shard: 16})
+	register(&Prop{ID: "C19", Module: "V.C19.Check", Gen: c19Gen, Quick: 130, Thorough: 1500, Shard: 16})
 }
 
 var c19Ruler *textmeasure.Ruler
